@@ -139,6 +139,31 @@ def check_document(lf, M, case, budget=400):
     M.count("rel.crlf")
     if r[:3] != base[:3]:
         viol("crlf", {"what": "CRLF line endings change the result", "lf": short(base[1], 200), "crlf": short(r[1], 200)})
+    # ... also when the caller wraps the text in a TokenScanner object himself
+    for variant, text_v in (("LF", lf), ("CRLF", lf.replace("\n", "\r\n"))):
+        if not os.path.exists(text_v):
+            r = run(TokenScanner(text_v))
+            n += 1
+            M.count("rel.crlf")
+            if r[:3] != base[:3]:
+                viol("crlf", {"what": "handing the %s text over as a TokenScanner object changes the result" % variant, "string": short(base[1], 200), "scanner": short(r[1], 200)})
+    # a result the caller keeps must not change when the same Parser object parses the next (transformed) document
+    keep_p = Parser(AstBuilder(IdGenerator()))
+    try:
+        kept = keep_p.parse(lf)
+    except ParserError:
+        kept = None
+    if kept is not None:
+        snap = copy.deepcopy(kept)
+        try:
+            keep_p.parse(COMMENT + "\n\n" + lf.replace("\n", "\r\n") + "# one more comment\n")
+        except ParserError:
+            pass
+        n += 1
+        M.count("rel.kept_result")
+        if kept != snap:
+            viol("kept_result", {"what": "the document returned for the original text changed when the same Parser object parsed the transformed text",
+                                 "differences": short(docmodel.diff(snap, kept)[:3], 300)})
     # 2. file vs string (LF and CRLF files)
     try:
         lf.encode("utf8")
